@@ -286,6 +286,45 @@ Check C07_wasm_import_accepts : forall (is_lower : N -> bool) (lower : N -> list
   wasm_lint is_lower lower curated st [w] = [false].
 Print Assumptions C07_wasm_import_accepts.
 
+(* add commands handled concurrently (since cfbe845: load-append-save under Backend::dict_write_lock): for EVERY
+   schedule of polls the disk is the result of DictIO.run on the finished commands, one after the other, in the
+   order in which they finished; no command finishes twice; the command holding the lock works on the dictionary
+   as it is on disk.  So the sequential semantics of all theorems above covers overlapping add commands. *)
+Theorem C07_locked_adds_serial : forall (is_lower : N -> bool) (lower : N -> list N) (curated : dict)
+    (iter_order : list word -> list word) (cmds : list cmd) (s0 : fsys) (sched : list nat),
+  let '(s, holder, ord) := run_locked is_lower lower iter_order cmds s0 sched in
+  s = run_fs is_lower lower curated iter_order s0
+        (map (fun i : nat => AddWord (fst (cmd_at cmds i)) (snd (cmd_at cmds i))) ord) /\
+  NoDup ord /\
+  match holder with
+  | Some (j, d) => d = cmd_load is_lower lower (cmd_at cmds j) s /\ ~ In j ord
+  | None => True
+  end.
+Proof. exact locked_adds_serial. Qed.
+Check C07_locked_adds_serial : forall (is_lower : N -> bool) (lower : N -> list N) (curated : dict)
+    (iter_order : list word -> list word) (cmds : list cmd) (s0 : fsys) (sched : list nat),
+  let '(s, holder, ord) := run_locked is_lower lower iter_order cmds s0 sched in
+  s = run_fs is_lower lower curated iter_order s0
+        (map (fun i : nat => AddWord (fst (cmd_at cmds i)) (snd (cmd_at cmds i))) ord) /\
+  NoDup ord /\
+  match holder with
+  | Some (j, d) => d = cmd_load is_lower lower (cmd_at cmds j) s /\ ~ In j ord
+  | None => True
+  end.
+Print Assumptions C07_locked_adds_serial.
+
+(* ... and a schedule that polls every command twice in a row finishes all of them (non-vacuity of the above) *)
+Theorem C07_locked_adds_complete : forall (is_lower : N -> bool) (lower : N -> list N) (iter_order : list word -> list word)
+    (cmds : list cmd) (s0 : fsys) (n : nat),
+  n = length cmds ->
+  snd (run_locked is_lower lower iter_order cmds s0 (flat_map (fun i : nat => [i; i]) (seq 0 n))) = seq 0 n.
+Proof. exact locked_adds_complete. Qed.
+Check C07_locked_adds_complete : forall (is_lower : N -> bool) (lower : N -> list N) (iter_order : list word -> list word)
+    (cmds : list cmd) (s0 : fsys) (n : nat),
+  n = length cmds ->
+  snd (run_locked is_lower lower iter_order cmds s0 (flat_map (fun i : nat => [i; i]) (seq 0 n))) = seq 0 n.
+Print Assumptions C07_locked_adds_complete.
+
 (* ---- history: what the code did BEFORE the fix commits (over the `_old` definitions; not the current model) ---- *)
 (* F14 (87b8642): File::create truncated the dictionary itself: the crash state after it reloads to the EMPTY dictionary *)
 Example C07_crash_old_refuted :
@@ -309,7 +348,18 @@ Example C07_merge_rebuild_old_refuted :
     child_stream_old o1 d = child_stream_old o2 (append_word a_is_lower a_lower d w).
 Proof. exact merge_rebuild_old_refuted_same_id. Qed.
 
+(* FC07g (cfbe845): without the lock, two user adds polled alternately: both finish, alpha is gone *)
+Example C07_concurrent_old_refuted :
+  let '(s, _, ord) := run_unlocked_old a_is_lower a_lower id_order cmds_ab fs_empty [0; 1; 0; 1] in
+  ord = [0; 1] /\ option_map words_of (load_dict a_is_lower a_lower UserP s) = Some [w_beta].
+Proof. exact concurrent_old_refuted. Qed.
+
 (* ---- regression examples: the old witnesses under the current model ---- *)
+(* FC07g: the same two commands under the lock, polled alternately: both words are there *)
+Example C07_concurrent_example :
+  let '(s, holder, ord) := run_locked a_is_lower a_lower id_order cmds_ab fs_empty [0; 1; 0; 1; 1; 0; 1] in
+  ord = [0; 1] /\ holder = None /\ option_map words_of (load_dict a_is_lower a_lower UserP s) = Some [w_alpha; w_beta].
+Proof. exact concurrent_example. Qed.
 (* FC07a (ebb53b3): "blorf’s" (U+2019; normalisation changes it) is accepted once added, and so is "blorf's" *)
 Example C07_apostrophe_accepted :
   line_safe w_blorfs /\ normalized w_blorfs <> w_blorfs /\
